@@ -13,7 +13,7 @@ namespace BfeVerif.C35
 
 /-- even (or zero) stream id on HEADERS ⇒ connection error PROTOCOL_ERROR -/
 theorem C35_rule_even_id (c : Conn) (id : Nat) (es : Bool) (k : Kind) (hg : c.goAway = none) (h : id % 2 ≠ 1) :
-    (cstepCore c (.H id es k)).2 = .ga 1 := by
+    (headersEv c id es k).2 = .ga 1 := by
   have h2 : id % 2 = 0 := by omega
   by_cases h0 : id = 0
   · simp [cstepCore, headersEv, connErr, hg, h0]
@@ -22,7 +22,7 @@ theorem C35_rule_even_id (c : Conn) (id : Nat) (es : Bool) (k : Kind) (hg : c.go
 /-- a new stream whose id is not above every earlier one ⇒ connection error PROTOCOL_ERROR -/
 theorem C35_rule_non_increasing (c : Conn) (id : Nat) (es : Bool) (k : Kind) (hg : c.goAway = none)
     (hodd : id % 2 = 1) (hnl : (c.streams id).live = false) (hle : id ≤ c.maxId) :
-    (cstepCore c (.H id es k)).2 = .ga 1 := by
+    (headersEv c id es k).2 = .ga 1 := by
   have h0 : id ≠ 0 := by omega
   simp [cstepCore, headersEv, connErr, hg, h0, hodd, hnl, hle]
 
@@ -31,7 +31,7 @@ theorem C35_rule_non_increasing (c : Conn) (id : Nat) (es : Bool) (k : Kind) (hg
     stream error of RFC 7540 5.1.2 — known finding `limit-closes-connection`). -/
 theorem C35_rule_over_limit (c : Conn) (id : Nat) (es : Bool) (k : Kind) (hg : c.goAway = none) (hodd : id % 2 = 1)
     (hnl : (c.streams id).live = false) (hgt : c.maxId < id) (hover : c.cur + 1 > c.adv) :
-    (cstepCore c (.H id es k)).2 = .close := by
+    (headersEv c id es k).2 = .close := by
   have h0 : id ≠ 0 := by omega
   have : ¬ id ≤ c.maxId := by omega
   simp [cstepCore, headersEv, hg, h0, hodd, hnl, this, Conn.upd, sstep, hover]
@@ -40,7 +40,7 @@ theorem C35_rule_over_limit (c : Conn) (id : Nat) (es : Bool) (k : Kind) (hg : c
     and the stream is closed -/
 theorem C35_rule_bad_pseudo (c : Conn) (id : Nat) (es : Bool) (hg : c.goAway = none) (hodd : id % 2 = 1)
     (hnl : (c.streams id).live = false) (hgt : c.maxId < id) (hin : ¬ c.cur + 1 > c.adv) :
-    (cstepCore c (.H id es .bad)).2 = .rst 1 ∧ ((cstepCore c (.H id es .bad)).1.streams id).phase = .closedReset := by
+    (headersEv c id es .bad).2 = .rst 1 ∧ ((headersEv c id es .bad).1.streams id).phase = .closedReset := by
   have h0 : id ≠ 0 := by omega
   have : ¬ id ≤ c.maxId := by omega
   simp [cstepCore, headersEv, hg, h0, hodd, hnl, this, Conn.upd, sstep, hin]
@@ -61,21 +61,21 @@ theorem C35_rule_data_not_open (c : Conn) (id n pad : Nat) (es : Bool) (hg : c.g
     (after the fix; before it the frame was taken for trailers and could dereference a nil body pipe) -/
 theorem C35_rule_headers_half_closed (c : Conn) (id : Nat) (es : Bool) (k : Kind) (hg : c.goAway = none)
     (hodd : id % 2 = 1) (h : (c.streams id).phase = .hcr) :
-    (cstepCore c (.H id es k)).2 = .rst 5 ∧ ((cstepCore c (.H id es k)).1.streams id).phase = .closedReset := by
+    (headersEv c id es k).2 = .rst 5 ∧ ((headersEv c id es k).1.streams id).phase = .closedReset := by
   have h0 : id ≠ 0 := by omega
   simp [cstepCore, headersEv, hg, h0, hodd, h, SS.live, Conn.upd, sstep, closeReset]
 
 /-- trailers without END_STREAM ⇒ stream error PROTOCOL_ERROR -/
 theorem C35_rule_trailers_without_end (c : Conn) (id : Nat) (k : Kind) (hg : c.goAway = none) (hodd : id % 2 = 1)
     (h : (c.streams id).phase = .opn) (ht : (c.streams id).trailer = false) :
-    (cstepCore c (.H id false k)).2 = .rst 1 := by
+    (headersEv c id false k).2 = .rst 1 := by
   have h0 : id ≠ 0 := by omega
   simp [cstepCore, headersEv, hg, h0, hodd, h, ht, SS.live, Conn.upd, sstep]
 
 /-- a second trailer block ⇒ connection error PROTOCOL_ERROR -/
 theorem C35_rule_duplicate_trailers (c : Conn) (id : Nat) (es : Bool) (k : Kind) (hg : c.goAway = none)
     (hodd : id % 2 = 1) (h : (c.streams id).phase = .opn) (ht : (c.streams id).trailer = true) :
-    (cstepCore c (.H id es k)).2 = .ga 1 := by
+    (headersEv c id es k).2 = .ga 1 := by
   have h0 : id ≠ 0 := by omega
   simp [cstepCore, headersEv, hg, h0, hodd, h, ht, SS.live, Conn.upd, sstep]
 
@@ -106,7 +106,7 @@ theorem C35_rule_frame_sequence (c : Conn) (id : Nat) (hg : c.goAway = none) :
 /-- the inGoAway rules: once a GOAWAY is under way HEADERS are ignored (no stream is created, nothing is sent) and
     further connection errors send nothing; after an error GOAWAY every DATA frame is discarded -/
 theorem C35_rule_in_goaway (c : Conn) (code id n : Nat) (es : Bool) (k : Kind) (hg : c.goAway = some code) (h0 : id ≠ 0) :
-    cstepCore c (.H id es k) = (c, .ok) ∧ (code ≠ 0 → cstepCore c (.D id n es 0) = (c, .ok)) ∧
+    headersEv c id es k = (c, .ok) ∧ (code ≠ 0 → cstepCore c (.D id n es 0) = (c, .ok)) ∧
     (cstepCore c .Q).2 = .ok := by
   have h0' : (id == 0) = false := by simpa using h0
   refine ⟨by simp [cstepCore, headersEv, hg, h0], ?_, by simp [cstepCore, hg]⟩
@@ -115,8 +115,42 @@ theorem C35_rule_in_goaway (c : Conn) (code id n : Nat) (es : Bool) (k : Kind) (
 
 /-- after a framing-level connection error the frame reader is gone: no client frame has any effect -/
 theorem C35_rule_reader_gone (c : Conn) (e : Ev) (hc : e.isClient = true) (hg : c.gone = true) :
-    cstep c e = (c, .gone) := by
-  simp [cstep, hc, hg]
+    (cstep c e).1 = c ∧ ((cstep c e).2 = .gone ∨ (cstep c e).2 = .busy) := by
+  unfold cstep
+  split
+  · exact ⟨rfl, Or.inr rfl⟩
+  · simp [hc, hg]
+
+/-- a header block the frame reader rejects (upper-case or invalid field name / value, pseudo header after a regular
+    one, unknown / duplicate / mixed pseudo headers) ⇒ stream error PROTOCOL_ERROR, and a live stream is closed -/
+theorem C35_rule_malformed_block (c : Conn) (id : Nat) (es : Bool) (h0 : id ≠ 0) :
+    (cstepCore c (.H id es .inv)).2 = .rst 1 ∧
+    ((c.streams id).live = true → ((cstepCore c (.H id es .inv)).1.streams id).phase = .closedReset) := by
+  have h0' : (id == 0) = false := by simpa using h0
+  refine ⟨by simp [cstepCore, headersKindEv, h0', Conn.upd, sstep], ?_⟩
+  intro hl
+  simp [cstepCore, headersKindEv, h0', Conn.upd, sstep, hl, closeReset]
+
+/-- a request carrying a connection-specific header field (RFC 7540 8.1.2.2; names from the server's own list) is
+    never handed to the application: on a fresh odd id within the limit, with an idle scheduler, the stream's
+    handler is the built-in 400 responder — its HEADERS and DATA(END_STREAM) are queued at once -/
+theorem C35_rule_conn_specific (c : Conn) (id L : Nat) (es : Bool) (hg : c.goAway = none) (hodd : id % 2 = 1)
+    (hnl : (c.streams id).live = false) (hgt : c.maxId < id) (hin : ¬ c.cur + 1 > c.adv)
+    (hidle : c.held = none ∧ anyQueued c = false) :
+    (cstepCore c (.H id es (.conn L))).2 = .pending ∧
+    ((cstepCore c (.H id es (.conn L))).1.streams id).handler = .finished ∧
+    ((cstepCore c (.H id es (.conn L))).1.streams id).q = [.hdr false, .data L true] := by
+  have h0 : id ≠ 0 := by omega
+  have : ¬ id ≤ c.maxId := by omega
+  simp [cstepCore, headersKindEv, headersEv, hg, h0, hodd, hnl, this, Conn.upd, sstep, hin, hidle.1, hidle.2]
+
+/-- PUSH_PROMISE from the client ⇒ connection error PROTOCOL_ERROR; a stream timeout ⇒ RST_STREAM PROTOCOL_ERROR -/
+theorem C35_rule_push_promise_timeout (c : Conn) (id : Nat) (hg : c.goAway = none) :
+    (cstepCore c (.Z id)).2 = .ga 1 ∧ (cstepCore c (.T id)).2 = .rst 1 := by
+  refine ⟨?_, by simp [cstepCore, Conn.upd, sstep]⟩
+  by_cases h0 : id = 0
+  · simp [cstepCore, connErr, hg, h0]
+  · simp [cstepCore, connErr, hg, h0]
 
 /-! ### no internal failure -/
 
